@@ -592,7 +592,7 @@ def audit_relax(ctx, rng, cases, pinned=None):
             if s != 'solved':
                 ctx.incon('audit: %s status %s' % (form, s))
                 continue
-            if math.isfinite(v) and v > fmin + 1e-5 * max(1.0, abs(fmin)):
+            if math.isfinite(v) and v > fmin + 1e-4 * max(1.0, abs(fmin)):
                 ctx.violation('bound: the %s polynomial relaxation value %.8g exceeds p(x) = %.8g at x = %s' % (form, v, fmin, xmin),
                               {'stream': 'audit', 'form': form, 'case': c, 'value': v, 'point': xmin})
             if v == math.inf:
@@ -600,7 +600,7 @@ def audit_relax(ctx, rng, cases, pinned=None):
                               {'stream': 'audit', 'form': form, 'case': c})
         if all(k in vals and vals[k][0] == 'solved' for k in ('primal', 'dual')):
             vp, vd = vals['primal'][1], vals['dual'][1]
-            if vp > vd + 1e-5 * max(1.0, abs(vd)) and not (math.isinf(vp) and math.isinf(vd)):
+            if vp > vd + 1e-4 * max(1.0, abs(vd)) and not (math.isinf(vp) and math.isinf(vd)):
                 ctx.violation('weak duality: primal value %.8g exceeds dual value %.8g' % (vp, vd), {'stream': 'audit', 'case': c})
             elif math.isfinite(vp) and math.isfinite(vd) and abs(vp - vd) > 1e-4 * max(1.0, abs(vd)):
                 ctx.incon('audit: finite primal and dual values differ by more than 1e-4 (strong duality is only observed)')
@@ -641,7 +641,7 @@ def audit_constrained(ctx, rng, cases, pinned=None):
             if s != 'solved':
                 ctx.incon('audit: constrained %s status %s' % (form, s))
                 continue
-            if math.isfinite(v) and v > fmin + 1e-5 * max(1.0, abs(fmin)):
+            if math.isfinite(v) and v > fmin + 1e-4 * max(1.0, abs(fmin)):
                 ctx.violation('bound: the %s constrained polynomial relaxation value %.8g exceeds p(x) = %.8g at the feasible point %s'
                               % (form, v, fmin, xmin), {'stream': 'audit-constrained', 'form': form, 'case': c, 'point': xmin})
             if v == math.inf:
@@ -649,7 +649,7 @@ def audit_constrained(ctx, rng, cases, pinned=None):
                               {'stream': 'audit-constrained', 'form': form, 'case': c})
         if all(k in vals and vals[k][0] == 'solved' for k in ('primal', 'dual')):
             vp, vd = vals['primal'][1], vals['dual'][1]
-            if vp > vd + 1e-5 * max(1.0, abs(vd)) and not (math.isinf(vp) and math.isinf(vd)):
+            if vp > vd + 1e-4 * max(1.0, abs(vd)) and not (math.isinf(vp) and math.isinf(vd)):
                 ctx.violation('weak duality (constrained): primal value %.8g exceeds dual value %.8g' % (vp, vd),
                               {'stream': 'audit-constrained', 'case': c})
 
